@@ -1240,3 +1240,42 @@ m('C16', 'origin_and_widths: wavelength capped before scaling', MESHES,
   'C16.G5.domain')
 m('C16', 'origin_and_widths: vector of three nodes dropped', MESHES,
   "        if len(vector) < 3:", "        if len(vector) <= 3:", 'C16.G8.centre')
+
+# C16 G9: the survey domain (round 7b)
+m('C16', 'origin_and_widths: distance without abs', MESHES,
+  "        domain = np.array([center-abs(distance[0]), center+abs(distance[1])])",
+  "        domain = np.array([center-distance[0], center+distance[1]])",
+  'C16.G9.survey_domain')
+m('C16', 'origin_and_widths: distance both sides from d0', MESHES,
+  "        domain = np.array([center-abs(distance[0]), center+abs(distance[1])])",
+  "        domain = np.array([center-abs(distance[0]), center+abs(distance[0])])",
+  'C16.G9.survey_domain')
+m('C16', 'origin_and_widths: vector before distance', MESHES,
+  "    elif distance is not None:\n        domain = np.array([center-abs(distance[0]), center+abs(distance[1])])\n\n    elif vector is not None:\n        domain = np.array([vector.min(), vector.max()], dtype=float)",
+  "    elif vector is not None:\n        domain = np.array([vector.min(), vector.max()], dtype=float)\n\n    elif distance is not None:\n        domain = np.array([center-abs(distance[0]), center+abs(distance[1])])",
+  'C16.G9.survey_domain')
+m('C16', 'origin_and_widths: given domain as integers', MESHES,
+  "        domain = np.array(domain, dtype=np.float64)",
+  "        domain = np.array(domain)",
+  'C16.G9.survey_domain')
+m('C16', 'estimate_gridding_opts: receivers of the first source only', MESHES,
+  "            for s in survey.sources.values():\n                inp = np.r_[inp, [r.center_abs(s)[i]\n                                  for r in survey.receivers.values()]]",
+  "            s = list(survey.sources.values())[0]\n            inp = np.r_[inp, [r.center_abs(s)[i]\n                              for r in survey.receivers.values()]]",
+  'C16.G9.survey_default')
+m('C16', 'estimate_gridding_opts: 10 % only above', MESHES,
+  "            dim = [min(inp)-diff/10, max(inp)+diff/10]",
+  "            dim = [min(inp), max(inp)+diff/10]",
+  'C16.G9.survey_default')
+m('C16', 'estimate_gridding_opts: signed distance extent', MESHES,
+  "            diff = abs(distance[i][0]) + abs(distance[i][1])",
+  "            diff = distance[i][0] + distance[i][1]",
+  'C16.G9.survey_default')
+n('C16', 'origin_and_widths: distance via np.abs and a sign vector', MESHES,
+  "        domain = np.array([center-abs(distance[0]), center+abs(distance[1])])",
+  "        domain = center + np.array([-1.0, 1.0])*np.abs(distance)")
+n('C16', 'estimate_gridding_opts: sources listed once', MESHES,
+  "            inp = np.array([s.center[i] for s in survey.sources.values()])\n            for s in survey.sources.values():",
+  "            srcs = list(survey.sources.values())\n            inp = np.array([s.center[i] for s in srcs])\n            for s in srcs:")
+n('C16', 'estimate_gridding_opts: receiver loop spelled out', MESHES,
+  "                inp = np.r_[inp, [r.center_abs(s)[i]\n                                  for r in survey.receivers.values()]]",
+  "                for r in survey.receivers.values():\n                    inp = np.r_[inp, r.center_abs(s)[i]]")
